@@ -128,3 +128,202 @@ Theorem C16_nonvacuous :
   (exists d p, cJSONUtils_ApplyPatchesCaseSensitive x_doc (x_patches x_op_test) = Ok (0, d, p) /\ d <> x_doc /\ doc_eq d x_doc).
 Proof. exact examples_ok. Qed.
 Print Assumptions C16_nonvacuous.
+
+(** ==================================================================================================
+    Operation SEQUENCES (round 3).  The exact intermediate relation the comment above asks for:
+    [doc_same] (PatchExact.v) — same masked type, identical integer view, identical double, identical
+    string, children pointwise in order, except for objects, whose member lists have the same length and
+    the same name -> value pairs.  The model only copies numbers, so it respects this relation, and the
+    relation — unlike [doc_eq] — composes along a sequence. *)
+From CJ Require Import PatchObj PatchExact PatchSeq2Rfc PatchSeq2Op PatchSeqAll.
+
+(** [doc_same] is an equivalence relation (on all trees, no side condition). *)
+Theorem C16_same_equivalence :
+  (forall a, doc_same a a) /\ (forall a b, doc_same a b -> doc_same b a) /\
+  (forall a b c, doc_same a b -> doc_same b c -> doc_same a c).
+Proof. exact (conj doc_same_refl (conj doc_same_sym doc_same_trans)). Qed.
+Print Assumptions C16_same_equivalence.
+
+(** It is finer than the equality of the property ([doc_eq], the library's compare_json read declaratively)
+    on NaN-free documents, it transports well-formedness and keeps the nesting depth. *)
+Theorem C16_same_implies_doc_eq : forall a b, dwf a -> doc_same a b -> doc_eq a b /\ dwf b /\ node_depth a = node_depth b.
+Proof. exact (fun a b Ha H => conj (doc_same_doc_eq a b Ha H) (conj (doc_same_dwf a b Ha H) (doc_same_depth a b H))). Qed.
+Print Assumptions C16_same_implies_doc_eq.
+
+(** For member lists with pairwise distinct names "same name -> value pairs" says: one list is a permutation
+    of the other, with [doc_same] values under the same names. *)
+Theorem C16_same_members_permutation : forall l1 l2, keyed_children l1 /\ NoDup (map n_key l1) -> osame l1 l2 ->
+  exists l, Permutation.Permutation l2 l /\ Forall2 (fun x y => n_key x = n_key y /\ doc_same x y) l1 l.
+Proof. exact osame_permutation. Qed.
+Print Assumptions C16_same_members_permutation.
+
+(** The equality used by the [test] operation (on both sides: compare_json in the code, [doc_eqb] in the
+    RFC evaluator) cannot tell [doc_same] documents apart, in either argument. *)
+Theorem C16_test_respects_same : forall a a' b b', dwf a -> dwf b -> doc_same a a' -> doc_same b b' -> doc_eqb a b = doc_eqb a' b'.
+Proof. exact doc_eqb_same. Qed.
+Print Assumptions C16_test_respects_same.
+
+(** The RFC evaluator respects the relation in its document argument: on [doc_same] documents an operation
+    fails on both or succeeds on both with [doc_same] results ([orel] lifts the relation to options). *)
+Theorem C16_eval1_respects_same : forall d1 d2 o, dwf d1 -> dwf d2 -> doc_same d1 d2 -> op_values_ok o ->
+  orel (eval1 d1 o) (eval1 d2 o).
+Proof. exact eval1_same. Qed.
+Print Assumptions C16_eval1_respects_same.
+
+(** ... and keeps documents well-formed: operands well-formed, reference tokens C strings of unsigned chars
+    (they become member names), no container of the result above SIZE_MAX elements. *)
+Theorem C16_eval1_keeps_dwf : forall d o e, dwf d -> op_values_ok o -> op_toks_ok o -> eval1 d o = Some e -> small_arrays e -> dwf e.
+Proof. exact eval1_dwf. Qed.
+Print Assumptions C16_eval1_keeps_dwf.
+
+(** One operation, exactly: [C16_conform_op] with [doc_same] in place of [doc_eq]; the document itself need
+    not be shallow — only a value that [copy] duplicates ([copy_ok]); operation objects need C strings only in
+    their String-typed members ([op_wf2], implied by [op_wf]). *)
+Theorem C16_conform_op_exact : forall doc p o,
+  dwf doc -> op_wf2 p -> op_of p = Some o -> op_values_ok o -> o <> Remove [] -> copy_ok doc o ->
+  exists st doc' p', apply_patch doc p true = Ok (st, doc', p') /\
+    match eval1 doc o with
+    | Some d' => st = 0 /\ doc_same doc' d'
+    | None => st <> 0
+    end.
+Proof. exact apply_patch_same. Qed.
+Print Assumptions C16_conform_op_exact.
+
+Theorem C16_op_wf_weaker : forall p, op_wf p -> op_wf2 p.
+Proof. exact op_wf_wf2. Qed.
+Print Assumptions C16_op_wf_weaker.
+
+(** compare_json (any case mode, any fuel, any trees) leaves its first operand the same document under the
+    same member name: sorting is the only thing it does to it. *)
+Theorem C16_test_keeps_document : forall fuel a b cs r a' b', compare_json fuel a b cs = Ok (r, a', b') ->
+  doc_same a' a /\ n_key a' = n_key a.
+Proof. exact compare_json_keeps. Qed.
+Print Assumptions C16_test_keeps_document.
+
+(** THE CONFORMANCE THEOREM FOR PATCH ARRAYS OF ANY LENGTH.  For every well-formed document [doc] ([dwf]) and
+    every patch array that RFC 6902 reads as the operation list [ops] ([ops_of]: every element an object with
+    "op" one of the six names, "path"/"from" syntactically valid JSON pointers, "value" where required), whose
+    elements have members named by C strings and C strings in their String-typed members ([op_wf2]), whose
+    value operands are well-formed and duplicable, whose reference tokens are C strings of unsigned chars, none
+    of which is the removal of the whole document ([op_good]) — and provided the RFC evaluation itself stays
+    within the machine's limits ([fits]: every document it produces on the way has no container above SIZE_MAX
+    elements; a value that is copied is nested no deeper than CJSON_CIRCULAR_LIMIT, beyond which
+    cJSON_Duplicate refuses) —
+      cJSONUtils_ApplyPatchesCaseSensitive returns 0 exactly when RFC 6902 evaluation succeeds, the resulting
+      document is then [doc_same] (hence [doc_eq]) to the RFC's result and again well-formed; otherwise it
+      returns a non-zero status. *)
+Theorem C16_conform : forall doc patches ops,
+  dwf doc -> ops_of patches = Some ops -> Forall op_wf2 (n_children patches) -> Forall op_good ops -> fits doc ops ->
+  exists st doc' patches', cJSONUtils_ApplyPatchesCaseSensitive doc patches = Ok (st, doc', patches') /\
+    match eval doc ops with
+    | Some d' => st = 0 /\ doc_same doc' d' /\ doc_eq doc' d' /\ dwf doc'
+    | None => st <> 0
+    end.
+Proof. exact apply_patches_conform. Qed.
+Print Assumptions C16_conform.
+
+(** ... and when the RFC evaluation fails, both sides fail at the SAME operation: the model's loop runs
+    through exactly the operations before the first one (index [k]) at which the RFC evaluation fails, has then a
+    document [dk] that is [doc_same] to the RFC's intermediate document [ek], and the entry point returns the
+    non-zero status of operation [k] with the document as that operation left it. *)
+Theorem C16_conform_first_failure : forall doc patches ops,
+  dwf doc -> ops_of patches = Some ops -> Forall op_wf2 (n_children patches) -> Forall op_good ops -> fits doc ops ->
+  eval doc ops = None ->
+  exists k pk ok dk ek ps0 st dk' pk' patches',
+    nth_error (n_children patches) k = Some pk /\ nth_error ops k = Some ok /\
+    apply_loop doc (firstn k (n_children patches)) true = Ok (0, dk, ps0) /\ eval doc (firstn k ops) = Some ek /\ doc_same dk ek /\
+    eval1 ek ok = None /\ apply_patch dk pk true = Ok (st, dk', pk') /\ st <> 0 /\
+    cJSONUtils_ApplyPatchesCaseSensitive doc patches = Ok (st, dk', patches').
+Proof. exact apply_patches_first_failure. Qed.
+Print Assumptions C16_conform_first_failure.
+
+(** The side condition [fits] is decidable by running the RFC evaluator. *)
+Theorem C16_fits_checkable : forall ops d, fitsb d ops = true -> fits d ops.
+Proof. exact fitsb_sound. Qed.
+Print Assumptions C16_fits_checkable.
+
+(** non-vacuity: {"a/b":[1,2,{"~k":3}],"c":"x"} with the five operations
+      add "/a~1b/1" {"n":[true]};  test "/a~1b/3/~0k" 3;  move "/a~1b/3/~0k" -> "/m~0";
+      copy "/a~1b" -> "/c";  remove "/a~1b/0"
+    (escaped names, array indices, a copy onto an existing member): all hypotheses of [C16_conform] hold, the
+    RFC evaluation succeeds, the model returns 0 with a document that differs from the RFC's (the replaced
+    member "c" went to the end) and is [doc_same] / [doc_eqb] to it — computed on both sides. *)
+Theorem C16_conform_nonvacuous :
+  dwf y_doc /\ ops_of y_patch = Some y_ops /\
+  Forall op_wf2 (n_children y_patch) /\ Forall op_good y_ops /\ fits y_doc y_ops /\
+  exists e d p', eval y_doc y_ops = Some e /\
+    cJSONUtils_ApplyPatchesCaseSensitive y_doc y_patch = Ok (0, d, p') /\
+    d <> e /\ doc_same d e /\ doc_eqb d e = true.
+Proof. exact five_ops_example. Qed.
+Print Assumptions C16_conform_nonvacuous.
+
+(** Two checkable sufficient conditions for the hypotheses of [C16_conform] (PatchSeq2Fit.v).
+    (a) If every String-typed member of an operation object is a C string of unsigned chars (bytes 1..255:
+        what a parser delivers), the reference tokens of the operation are such strings ([op_toks_ok], a part
+        of [op_good]). *)
+From CJ Require Import PatchSeq2Fit.
+Theorem C16_tokens_of_c_strings : forall p o, op_cstr p -> op_of p = Some o -> op_toks_ok o.
+Proof. exact op_toks_of_cstr. Qed.
+Print Assumptions C16_tokens_of_c_strings.
+
+(** (b) A static bound for the size part of [fits]: an operation widens a container by at most one element
+        beyond what the document and the value operands already have, so
+        max(width doc, widths of the "value" operands) + number of operations <= SIZE_MAX
+        is enough; what remains ([copies_ok]) only concerns the values that [copy] operations duplicate, and is
+        void for patches without [copy]. *)
+Theorem C16_fits_static : forall ops d, copies_ok d ops ->
+  Z.of_nat (Nat.max (width d) (opsw ops) + length ops) <= SIZE_MAX -> fits d ops.
+Proof. exact fits_of_width. Qed.
+Print Assumptions C16_fits_static.
+
+Theorem C16_fits_static_no_copy : forall ops d, Forall no_copy ops -> copies_ok d ops.
+Proof. exact copies_ok_no_copy. Qed.
+Print Assumptions C16_fits_static_no_copy.
+
+(** (c) A static bound for the [copy] part: an add / replace deepens the document by at most the depth of its
+        operand, a move / copy at most doubles the depth ([dbound]); if the bound so computed from the depth of
+        the document stays within CJSON_CIRCULAR_LIMIT, every value a [copy] has to duplicate is shallow enough. *)
+Theorem C16_copies_static : forall ops d, Z.of_nat (dbound (node_depth d) ops) <= c_CJSON_CIRCULAR_LIMIT -> copies_ok d ops.
+Proof. exact copies_ok_of_depth. Qed.
+Print Assumptions C16_copies_static.
+
+(** [C16_conform] with hypotheses that only look at the document and the patch (no evaluation): well-formed
+    document; patch array read by RFC 6902 as [ops]; operation objects with members named by C strings whose
+    String-typed members are C strings of unsigned chars; well-formed duplicable "value" operands; no removal of
+    the whole document; widths + number of operations within SIZE_MAX; depth budget within CJSON_CIRCULAR_LIMIT. *)
+Theorem C16_conform_static : forall doc patches ops,
+  dwf doc -> ops_of patches = Some ops ->
+  Forall op_wf2 (n_children patches) -> Forall op_cstr (n_children patches) ->
+  Forall op_values_ok ops -> ~ In (Remove []) ops ->
+  Z.of_nat (Nat.max (width doc) (opsw ops) + length ops) <= SIZE_MAX ->
+  Z.of_nat (dbound (node_depth doc) ops) <= c_CJSON_CIRCULAR_LIMIT ->
+  exists st doc' patches', cJSONUtils_ApplyPatchesCaseSensitive doc patches = Ok (st, doc', patches') /\
+    match eval doc ops with
+    | Some d' => st = 0 /\ doc_same doc' d' /\ doc_eq doc' d' /\ dwf doc'
+    | None => st <> 0
+    end.
+Proof. exact apply_patches_conform_static. Qed.
+Print Assumptions C16_conform_static.
+
+(** its hypotheses hold on the five-operation example above (where the RFC evaluation succeeds) *)
+Theorem C16_conform_static_nonvacuous :
+  dwf y_doc /\ ops_of y_patch = Some y_ops /\
+  Forall op_wf2 (n_children y_patch) /\ Forall op_cstr (n_children y_patch) /\
+  Forall op_values_ok y_ops /\ ~ In (Remove []) y_ops /\
+  Z.of_nat (Nat.max (width y_doc) (opsw y_ops) + length y_ops) <= SIZE_MAX /\
+  Z.of_nat (dbound (node_depth y_doc) y_ops) <= c_CJSON_CIRCULAR_LIMIT /\
+  exists d, eval y_doc y_ops = Some d.
+Proof. exact static_example. Qed.
+Print Assumptions C16_conform_static_nonvacuous.
+
+(** non-vacuity of [C16_conform_first_failure]: add "/a~1b/1" ...; test "/c" 3 (the member is "x"); remove "/a~1b/0":
+    all hypotheses hold, the RFC evaluation fails (at operation 1), the model returns status 1 and keeps the effect
+    of the add. *)
+Theorem C16_conform_failure_nonvacuous :
+  dwf y_doc /\ ops_of y_patch_bad = Some y_ops_bad /\
+  Forall op_wf2 (n_children y_patch_bad) /\ Forall op_good y_ops_bad /\ fits y_doc y_ops_bad /\
+  eval y_doc y_ops_bad = None /\
+  exists e1 d p', eval y_doc (firstn 1 y_ops_bad) = Some e1 /\
+    cJSONUtils_ApplyPatchesCaseSensitive y_doc y_patch_bad = Ok (1, d, p') /\ doc_same d e1 /\ d <> y_doc.
+Proof. exact failing_example. Qed.
+Print Assumptions C16_conform_failure_nonvacuous.
